@@ -585,6 +585,7 @@ pub fn child_allocfail(args: &[String]) {
 }
 
 fn alloc_faults(g: &mut Grid) {
+    vrt::crash::idle(); // waits on child processes, not on a cell
     use std::os::unix::process::ExitStatusExt;
     use std::process::Command;
     let exe = std::env::current_exe().unwrap();
